@@ -174,5 +174,11 @@ theorem freshInv_step (s s' : St) (a : Act) (ho : OrderInv s)
   | reconfDialFail t =>
     obtain ⟨_, rfl⟩ := step_reconfDialFail h
     exact hi.of (Nat.le_refl _) (fun _ _ => rfl) (fun t' sid' w rest h' => Or.inl (mv _ _ _ rfl _ _ _ _ h'))
+  | extClose t =>
+    obtain ⟨_, rfl⟩ := step_extClose h
+    exact hi.of (Nat.le_refl _) (fun _ _ => rfl) (fun _ _ _ _ h' => Or.inl h')
+  | swallow t =>
+    obtain ⟨_, _, _, _, _, _, _, rfl⟩ := step_swallow h
+    exact hi.of (Nat.le_refl _) (fun _ _ => rfl) (fun t' sid' w rest h' => Or.inl (mv _ _ _ rfl _ _ _ _ h'))
 
 end Tcp
